@@ -247,6 +247,12 @@ pub fn star(tier: &str, seed: u64) {
     let rnd_o = if injected {
       let mut r = [0u8; 32];
       r.copy_from_slice(&g.bytes(32));
+      match case % 12 {
+        1 => r = [0u8; 32],
+        4 => r = [0xff; 32],
+        7 => { r = [0u8; 32]; r[31] = 1; }
+        _ => {}
+      }
       Some(r)
     } else {
       None
